@@ -47,7 +47,7 @@ var (
 		return m
 	}()
 	attDescs = []string{"Příloha", "说明 书", "desc (1)"}
-	attNames = []string{"a.txt", "b.bin", "ünï.dat", "with space.txt", "c.json", "Z.TXT"}
+	attNames = []string{"a.txt", "b.bin", "ünï.dat", "with space.txt", "c.json", "Z.TXT", "empty.bin", "big.bin", "crlf.txt"}
 )
 
 type c35Model struct {
@@ -113,6 +113,21 @@ type c35Args struct {
 
 func attContent(name string) []byte {
 	h := sha256.Sum256([]byte("attachment:" + name))
+	switch name {
+	case "empty.bin":
+		return []byte{} // an attachment without content
+	case "big.bin":
+		// large and poorly compressible: several stream buffers long
+		out := make([]byte, 0, 64<<10)
+		x := h
+		for len(out) < 64<<10 {
+			x = sha256.Sum256(x[:])
+			out = append(out, x[:]...)
+		}
+		return out
+	case "crlf.txt":
+		return []byte("line one\r\nline two\rline three\n\x00\xff endstream endobj\n")
+	}
 	return bytes.Repeat(h[:], 3+int(h[0])%40)
 }
 
